@@ -82,6 +82,28 @@ def run(ctx):
             ctx.violation(f"C12: {kind}: {what}", {"source": o["id"], "page_text": bp.render_page(r["page"]), "emitted": text,
                                                    "page": r["page"], "today": r["today"]},
                           key="zoq-page-no-final-newline" if kind == "zoq-newline" else None)
+    # the file surgery of the refresh itself: FileOps!ZoqRefresh on every page shape of MC_Zoq
+    import json
+    from .. import tlc
+    rz = tlc.run_tlc("MC_Zoq", cfg="MC_Zoq.cfg")
+    ctx.require_tlc_ok(rz, "MC_Zoq: refresh of saved-query pages (Idempotent, HeaderKept, NoAccumulation)")
+    ctx.tlc_stats(rz, "MC_Zoq: refresh of saved-query pages")
+    zcases = sorted((json.loads(json.loads(l)) for l in rz.output.splitlines() if l.startswith('"{')),
+                    key=lambda c: json.dumps(c, sort_keys=True))
+    if len(zcases) + 5 != rz.distinct:
+        ctx.machinery(f"MC_Zoq emitted {len(zcases)} cases for {rz.distinct} states")
+    if ctx.quick:
+        zcases = rng.sample(zcases, 320)
+    for x in emit.zoq_refresh(zcases):
+        if x["case"] is None:
+            ctx.machinery(x["problem"])
+        ctx.add("evaluations")
+        ctx.add("zoq_refresh_cases")
+        if x["problem"]:
+            which, got, want = x["problem"] if isinstance(x["problem"], tuple) else ("raise", x["problem"], "")
+            ctx.violation(f"C12: saved-query page after {'one refresh' if which == 'once' else 'two refreshes' if which == 'twice' else 'refresh'}"
+                          f" is not header + separator + stats line + blank + current results: {got[:200]!r}",
+                          {"page_before": x["text"], "observed": got, "expected": want})
     if not ctx.coverage.get("through_index_pages"):
         ctx.machinery("no page went through the index (query results / saved-query pages were not exercised)")
     ctx.add("traces_validated_against_impl", len(recs_ok))
